@@ -1,12 +1,13 @@
 (* C09 correspondence: the tables regenerated from the CURRENT source, as one record for the case files. *)
 From Coq Require Import String Ascii List Bool NArith.
 Import ListNotations.
-Require Import Verif.Codec.JsonClean Verif.Codec.Dispatch Verif.Codec.FileWrite Verif.Codec.StripCtx Verif.Codec.Run
-               Verif.Gen.JsonRegex Verif.Gen.PbDispatch Verif.Gen.StripCtx.
+Require Import Verif.Codec.JsonClean Verif.Codec.Dispatch Verif.Codec.FileWrite Verif.Codec.StripCtx Verif.Codec.EncState Verif.Codec.Run
+               Verif.Gen.JsonRegex Verif.Gen.PbDispatch Verif.Gen.StripCtx Verif.Gen.PbState.
 
 Definition src : source :=
   {| src_regex := regex; src_cases := cases; src_after := after_switch; src_fallback := frompb_fallback;
      src_writers := file_writers;
      src_sites := strip_sites;
      src_rule := mk_rule deref_kinds kind_arms skip_tests clear_tests clear_action else_recurse;
-     src_schema := schema; src_oneofs := oneofs |}.
+     src_schema := schema; src_oneofs := oneofs;
+     src_encs := rule_of pb_write_sites |}.
